@@ -14,7 +14,19 @@ import (
 // Rand is splitmix64: every random choice of a harness derives from one seed.
 type Rand struct{ s uint64 }
 
-func NewRand(seed uint64) *Rand { return &Rand{s: seed*0x9E3779B97F4A7C15 + 0x1234567} }
+// NewRand: the state of seed 0 / 1 is the historical one (the default seed's cases stay what the corpus and the
+// design notes refer to); every other seed is hashed first.  Before, NewRand(s+1) was NewRand(s) advanced by one
+// draw (state = seed*G + c, every draw adds G), so "seeds 1..4" were one stream shifted by a draw.
+func NewRand(seed uint64) *Rand {
+	if seed <= 1 {
+		return &Rand{s: seed*0x9E3779B97F4A7C15 + 0x1234567}
+	}
+	z := seed + 0xD1B54A32D192ED03
+	z = (z ^ (z >> 30)) * 0xBF58476D1CE4E5B9
+	z = (z ^ (z >> 27)) * 0x94D049BB133111EB
+	z = z ^ (z >> 31)
+	return &Rand{s: z}
+}
 
 func (r *Rand) U64() uint64 {
 	r.s += 0x9E3779B97F4A7C15
